@@ -1,5 +1,6 @@
 (* C15 — generic facts about the list-based maps of Chain/Model.v *)
-From Verif Require Import Base.Prelude Chain.Model.
+From Verif Require Import Base.Prelude.
+From Verif Require Import Chain.Model.
 Local Open Scope string_scope.
 Local Open Scope list_scope.
 
